@@ -10,7 +10,7 @@ cd "$(dirname "$0")/.."
 git -C "$wt" checkout -q --detach "$(git -C /repo rev-parse HEAD)" && git -C "$wt" checkout -q -- . && git -C "$wt" clean -fdq
 git -C "$wt" apply "$patch" || { echo "patch does not apply"; exit 3; }
 for p in "$@"; do
-  VERIF_REPO="$wt" ./run check "$p" "$tier" 2>&1 | grep -E "^(VIOLATION|  signature|C[0-9]+ |INCONC|OK|KNOWN)" | head -12
+  VERIF_REPO="$wt" ./run check "$p" "$tier" 2>&1 | grep -E "^(VIOLATION|  signature|C[0-9]+ |INCONC|OK)" | head -12
   echo "== $p done"
 done
 git -C "$wt" checkout -q -- . ; git -C "$wt" clean -fdq
